@@ -810,6 +810,41 @@ async fn run_case(line: &str) -> String {
                     Err(_) => ctx.log(format!("TSpawnRet {a} false")),
                 }
             }
+            // Send mode only: the awaiting task itself runs `spawn(_linked)` to completion and aborts the
+            // returned loop handle at once, i.e. before the actor's loop task has been polled a first time
+            // (model: LSpawn a; LPoll a; LAbort a with the actor at the `Spawned` boundary)
+            "spawnx" => {
+                let a = u(w[1]) as usize;
+                if ctx.cell(a).is_some() || a >= actors.len() || !matches!(mode, Mode::Send) {
+                    continue;
+                }
+                let cfg = actors[a].clone();
+                let me = Me {
+                    ctx: ctx.clone(),
+                    me: a,
+                    cfg: cfg.clone(),
+                };
+                let sup = cfg.link.and_then(|s| ctx.cell(s));
+                touch();
+                let ctx2 = ctx.clone();
+                tokio::spawn(async move {
+                    let res = match sup {
+                        Some(s) => ractor::ActorRuntime::<H>::spawn_linked(None, H(me), (), s).await,
+                        None => ractor::ActorRuntime::<H>::spawn(None, H(me), ()).await,
+                    };
+                    match res {
+                        Ok((aref, inner)) => {
+                            ctx2.cells.lock().unwrap().insert(a, aref.get_cell());
+                            ctx2.ids.lock().unwrap().insert(aref.get_id(), a);
+                            ctx2.log(format!("TSpawnRet {a} true"));
+                            ctx2.log(format!("TAborted {a}"));
+                            inner.abort();
+                            let _ = inner.await;
+                        }
+                        Err(_) => ctx2.log(format!("TSpawnRet {a} false")),
+                    }
+                });
+            }
             "send" => {
                 let a = u(w[1]) as usize;
                 if let Some(c) = ctx.cell(a) {
